@@ -82,6 +82,35 @@ CHECKS = {
              "f32 results; a general-position table rounded to f32 is checked with single-precision tolerance.",
         ref="DESIGN.md 5 (C10)",
         technique="bounded-exhaustive enumeration over inputs x float type on real code, differential f32/f64 oracle"),
+    "C13": dict(
+        text="Every ordered pair of the listed families x 4 operations is pushed through the public fill_queue and subdivide stages of "
+             "the real implementation; with exact predicates: two mutually linked events per input edge, exact boxes; all pairs of "
+             "processed sub-segments are disjoint / share end points only / coincide completely and belong to different operands; the "
+             "sub-segments on each input edge chain from its start to its end (union/xor).",
+        ref="DESIGN.md 5 (C13)",
+        technique="bounded-exhaustive enumeration of real code with an exact planar-subdivision invariant on every returned event set"),
+    "C14": dict(
+        text="Same runs as C13; for every processed sub-segment the recorded in_out, other_in_out, edge type, in_result, result "
+             "transition (coincident twins: exactly one carries the boundary with the combined direction) and prev_in_result are "
+             "compared with what exact membership of two side points in the operands implies (face bitmasks on complexes, exact "
+             "even-odd on the float table).",
+        ref="DESIGN.md 5 (C14)",
+        technique="bounded-exhaustive enumeration of real code against a geometric reference classification of every sub-segment"),
+    "C15": dict(
+        text="Same runs; Ord::cmp on every ordered pair of events before and after subdivision is compared with an independently "
+             "written reference order (never Equal, antisymmetric), every triple of events sharing a point is checked for transitivity; "
+             "compare_segments on every ordered pair of processed left events with overlapping x-extent (Equal only for identity, "
+             "antisymmetric, agreeing with the exact vertical order of separated non-crossing segments).",
+        ref="DESIGN.md 5 (C15)",
+        technique="exhaustive pairwise/triple-wise check of the real comparison functions on all event sets of a bounded input family"),
+    "C16": dict(
+        text="Every ordered pair of segments of small integer lattices (quick {0..6}^2, thorough {0..10}^2), of their large-coordinate "
+             "affine images (coordinates up to 2^25) and of a steep family, as same-operand and different-operand pairs, is given to the "
+             "public possible_intersection on fresh events; return code, queue and links are compared with an exact integer "
+             "classification (disjoint / common end point / single point with rational coordinates / collinear overlap), also with "
+             "exchanged roles; float segments of fixed-seed tables in f64 and f32: box containment and common division point.",
+        ref="DESIGN.md 5 (C16)",
+        technique="bounded-exhaustive enumeration of segment pairs on the real intersection step against an exact integer reference"),
 }
 
 NOT_YET = "check under construction in this round (designed in DESIGN.md section 5, not yet registered)"
